@@ -344,9 +344,11 @@ def allclose(a, b, rtol=1e-05, atol=1e-08, **kw):
 
 
 def isfinite(a, **kw):
-    if not ACTIVE[0] or not _any_obj([a]):
-        return _np.isfinite(a, **kw)
-    return _np.ones(_np.shape(a), dtype=bool)
+    if ACTIVE[0]:
+        arr = a if isinstance(a, _np.ndarray) else _np.asarray(a, dtype=object) if any(isinstance(v, S.Sym) for v in _np.ravel(_np.asarray(a, dtype=object))) else a
+        if _any_obj([arr]):
+            return _np.ones(_np.shape(arr), dtype=bool)
+    return _np.isfinite(a, **kw)
 
 
 def _unary(name):
